@@ -70,7 +70,9 @@ class RuleDBBase(RuleDBAbstract):
         if self._pruned_dict is None:
             rules_dict = self.rules_up_to_equivalence()
             if self.iterative:
-                rules_dict = iterative_prune(rules_dict, root=self.root_label)
+                rules_dict = iterative_prune(
+                    rules_dict, root=self.equivdb[self.root_label]
+                )
             else:
                 prune(rules_dict)
             self._pruned_dict = rules_dict
